@@ -28,6 +28,9 @@ SPECIAL = ['nan', 'inf', '-inf', 'NaN', '1e5', '0x1F', 'TB0Z', 'tb0z', 'None', '
            'char', 'struct', 'enum', '1.', '.5', '+1', '1e400', 'E', 'c00q', '0', '00', '{', 'x{y']
 
 
+RARE_WS = ['\x0b', '\x0c', '\x1c', '\x1f']     # white space for str.isspace()/\\s, but neither blank nor tab
+
+
 def rstr(r, maxlen, header=False):
     if r.random() < 0.12:
         sp = [x for x in SPECIAL if len(x) <= maxlen and not x.startswith('{')]
@@ -35,6 +38,9 @@ def rstr(r, maxlen, header=False):
             return r.choice(sp)
     n = min(r.choice([0, 0, 1, 2, 3, maxlen, maxlen]), maxlen)
     s = ''.join(r.choice(ALPH) for _ in range(n))
+    if n >= 3 and r.random() < 0.06:
+        k = r.randrange(1, n - 1)
+        s = s[:k] + r.choice(RARE_WS) + s[k + 1:]
     if s.startswith('{'):
         s = 'x' + s[1:]
     s = s.replace('}', ')') if r.random() < 0.5 or _DOUBLE_BRACES.search(s) else s
@@ -102,6 +108,11 @@ COMMENTS = [None, None, None, 'short header', '# already a comment', 'x',
 def rname(r, prefix, k):
     pad = r.choice(['', '', '', 'x', 'y'*7, 'z'*40, 'w'*90])
     return '%s%d%s.par' % (prefix, k, pad)
+
+
+def sibling(r, name):
+    u = r.choice(['.tmp', '.bak', '~', '.new', '.lock', '.swp', '.orig', '.part', '.old', '#'])
+    return (('.' + name + u) if u == '.swp' else (('#' + name + u) if u == '#' else name + u))
 
 
 def gen_tables(r, external=False, deep=False):
@@ -211,7 +222,11 @@ def generate(seed, tier='quick'):
             steps.append({'op': 'append', 'rows': {}, 'pairs': [], 'case': 'upper', 'form': 'lists',
                           'symbols': r.random() < 0.5})
         elif op == 'write_copy':
-            steps.append({'op': 'write_copy', 'name': rname(r, 'f', nf), 'comments': r.choice(COMMENTS)})
+            nm = rname(r, 'f', nf)
+            if r.random() < 0.3:
+                # a bystander whose name is the future target plus a suffix that tools like to use
+                steps.append({'op': 'ext_create', 'name': sibling(r, nm), 'content': r.choice(['garbage', 'yanny'])})
+            steps.append({'op': 'write_copy', 'name': nm, 'comments': r.choice(COMMENTS)})
             names.append(steps[-1]['name'])
             nf += 1
         elif op == 'reread':
@@ -258,6 +273,9 @@ def generate(seed, tier='quick'):
                 steps.append({'op': 'clock_jump', 'to': r.choice([-62135596800.0, 253402300799.0, 0.0])})
             else:
                 steps.append({'op': 'clock_jump', 'by': 0.0, 'freeze': True})
+        elif op == 'ext_create_only' and r.random() < 0.5:
+            steps.append({'op': 'ext_create_sibling', 'content': r.choice(['garbage', 'yanny']),
+                          'suffix': r.choice(['.tmp', '.bak', '~', '.new', '.lock', '.orig', '.part'])})
         elif op == 'ext_create_only':
             steps.append({'op': 'ext_create', 'name': 'x%d.par' % nx,
                           'content': r.choice(['garbage', 'yanny', 'empty'])})
